@@ -326,6 +326,7 @@ def runHandler (h : Handler) (name : Bytes) (args : List Bytes) : Except GoErr (
   | .dropNext => .ok (args.drop 1)
   | .prepend tok => .ok (tok :: args)
   | .fail => .error (.foreign (B "handler refused: " ++ name))
+  | .swallow => .ok []   -- `return nil, nil`: everything behind the unknown option is dropped
 
 def GoErr.isUnknownFlag : GoErr → Bool
   | .flags .unknownFlag _ => true
